@@ -70,6 +70,18 @@ def run(prog: Program, col: Collector, tier: str, refs: Optional[Refs] = None, c
     col.rule("R01.20", "a renaming set that is filtered by a test on itself is filtered to a fixpoint", floor=0)
     from . import c04
     c04._self_referential_filter(prog, col, refs, cat)
+    algebra.r_binary_rule_operand_order(prog, col, refs, cat, "R01.22")
+    from . import kernels
+    kernels.r_aligned_or_same_layout(prog, col, refs, cat, "R01.23")
+    kernels.r_unit_axis_padding(prog, col, refs, cat, "R01.24")
+    kernels.r_index_padding_count(prog, col, refs, cat, "R01.25")
+    # parametrised ops (SumOp(axis=-1) / SumOp(axis=-2), GetitemOp(offset)) are distinguished by their parameters when they are interned
+    col.rule("R01.21", "the interning key of a parametrised op is its parameters, not a hash of them", floor=2)
+    from . import c07
+    for c in prog.classes.values():
+        m = c.methods.get("hash_args_kwargs")
+        if m is not None:
+            c07._no_hash_in_key(col, m)
     # eager evaluation of Number operands runs the scalar implementation of an op, of Tensor operands the array one: they must agree
     from . import numerics
     numerics.run_agreement(prog, col, refs, cat, rule="R01.13")
